@@ -20,6 +20,7 @@ EXPLANATION = (
     "lru_caches vs the process-wide format table), FILL (dimensional_equivalents) and who-may-write for process-wide "
     "tables. Decides these structural clauses for all paths; does not compare any answer with a fresh registry.")
 EXPLANATION += ' Also decided (rules added after the second round of seeded changes): lazily registered prefixed units stay out of the defined-spelling index and prefixes apply to defined spellings only; every storing path of the adder indexes the spelling.'
+EXPLANATION += ' Also decided (round 8): the conversion-factor memo is filled only under the key that was looked up.'
 
 
 def run(ck, ix, tier):
